@@ -11,6 +11,7 @@ INVARIANT EarlierNotExecuted
 INVARIANT OtherContextsSilent
 INVARIANT AbsentNotBackfilled
 INVARIANT SeededResolvesToLatest
+INVARIANT SeededAvail
 INVARIANT IgnoreExact
 INVARIANT HandlersDeclared
 INVARIANT PointDepsInOrder
